@@ -268,11 +268,84 @@ theorem C04_steady_continues {σ} (S : Sys σ) (p : Pars) (y0 : σ) (ops : List 
       simp only [Spec.step, Spec.steady, hf, Bool.false_eq_true, if_false, hk] at this
       simpa using this
 
-/-- a failed simulator (after `NoSteadyState`) ignores every simulating call: no exception, nothing recorded -/
+/-- a failed simulator (after `NoSteadyState` or an `IntegrationFailure`) ignores every simulating call: no exception,
+    nothing recorded -/
 theorem C04_failed_is_inert {σ} (S : Sys σ) (s : Sim σ) (op : Op) (hf : s.errors > 0)
-    (hop : (∃ t n, op = .simulate t n) ∨ (∃ pts, op = .timeCourse pts) ∨ (∃ r, op = .steady r)) :
+    (hop : (∃ t n, op = .simulate t n) ∨ (∃ pts, op = .timeCourse pts) ∨ (∃ r, op = .steady r) ∨
+      (∃ t n, op = .simulateF t n) ∨ (∃ pts, op = .timeCourseF pts)) :
     step S s op = (s, none) := by
-  rcases hop with ⟨t, n, rfl⟩ | ⟨pts, rfl⟩ | ⟨r, rfl⟩ <;> simp [step, simulate, timeCourse, steady, hf]
+  rcases hop with ⟨t, n, rfl⟩ | ⟨pts, rfl⟩ | ⟨r, rfl⟩ | ⟨t, n, rfl⟩ | ⟨pts, rfl⟩ <;>
+    simp [step, simulate, timeCourse, steady, simulateF, timeCourseF, hf]
+
+/-! ## A failing solver (`IntegrationFailure`) -/
+
+/-- WHAT A FAILED INTEGRATION LEAVES BEHIND.  `simulate` / `simulate_time_course` whose solver reports failure, in any
+    simulator state: the call raises exactly what the succeeding call raises (same class or none); it records
+    nothing and leaves parameters, initial values, time shift AND the integrator (`t0`, `y0`) where they were; and
+    when it does not raise the simulator is failed afterwards (so by `C04_failed_is_inert` every later simulating call is
+    ignored until `clear_results`). -/
+theorem C04_solver_failure {σ} (S : Sys σ) (s : Sim σ) (op opF : Op)
+    (hop : (∃ t n, op = .simulate t n ∧ opF = .simulateF t n) ∨
+           (∃ pts, op = .timeCourse pts ∧ opF = .timeCourseF pts)) :
+    (step S s opF).2 = (step S s op).2 ∧
+    (step S s opF).1.segs = s.segs ∧ (step S s opF).1.pars = s.pars ∧ (step S s opF).1.y0 = s.y0 ∧
+    (step S s opF).1.shift = s.shift ∧ (step S s opF).1.integ = s.integ ∧
+    ((step S s opF).2 = none → (step S s opF).1.errors > 0) := by
+  have key : ∀ x : Out (Sim σ), (failInstead s x).2 = x.2 ∧ (failInstead s x).1.segs = s.segs ∧
+      (failInstead s x).1.pars = s.pars ∧ (failInstead s x).1.y0 = s.y0 ∧ (failInstead s x).1.shift = s.shift ∧
+      (failInstead s x).1.integ = s.integ ∧ ((failInstead s x).2 = none → (failInstead s x).1.errors > 0) := by
+    intro x
+    unfold failInstead
+    cases hx : x.2 with
+    | some e => simp
+    | none =>
+      by_cases he : s.errors > 0
+      · simp [he]
+      · simp [he]
+  rcases hop with ⟨t, n, rfl, rfl⟩ | ⟨pts, rfl, rfl⟩
+  · simp only [step, simulateF_eq]; exact key _
+  · simp only [step, timeCourseF_eq]; exact key _
+
+/-- ... hence after any history on a live simulator a failing `simulate(t)` is refused (ValueError) iff `t ≤` the time
+    reached, and otherwise turns the simulator into a failed one with the results it had. -/
+theorem C04_solver_failure_refusal_iff {σ} (S : Sys σ) (p : Pars) (y0 : σ) (ops : List Op) (t : Rat)
+    (n : Option Nat) (hlive : (after S p y0 ops).errors = 0)
+    (T : Rat) (hT : reached? (after S p y0 ops).segs = .ok T) :
+    ((step S (after S p y0 ops) (.simulateF t n)).2 = some .valueError ↔ t ≤ T) ∧
+    (after S p y0 (ops ++ [.simulateF t n])).segs = (after S p y0 ops).segs ∧
+    ((step S (after S p y0 ops) (.simulateF t n)).2 = none →
+      (specAfter S p y0 (ops ++ [.simulateF t n])).failed = true) := by
+  obtain ⟨h2, hsegs, _, _, _, _, hfail⟩ :=
+    C04_solver_failure S (after S p y0 ops) (.simulate t n) (.simulateF t n) (Or.inl ⟨t, n, rfl, rfl⟩)
+  obtain ⟨_, _, r', hafter, _, _⟩ := last_step S p y0 ops (.simulateF t n)
+  refine ⟨?_, ?_, ?_⟩
+  · rw [h2]; exact (C04_refusal_iff S p y0 ops t n hlive T hT).1
+  · rw [hafter]; exact hsegs
+  · intro hnone
+    have := hfail hnone
+    rw [← hafter] at this
+    rw [← r'.failed]
+    simpa using this
+
+/-! ## Scaled parameters -/
+
+/-- `scale_parameter(s)` is `update_parameter(s)` with every named value multiplied by its factor — all factors applied
+    to the values the parameters had BEFORE the call, names in the caller's order; an unknown name raises KeyError
+    and changes nothing.  (So, like a parameter update, it touches neither the results nor the clock.) -/
+theorem C04_scale_is_update {σ} (S : Sys σ) (s : Sim σ) (kvs : Upd) :
+    (∀ u, scaledValues s.pars kvs = some u →
+      step S s (.scalePars kvs) = step S s (.updPars u) ∧
+      u.length = kvs.length ∧
+      ∀ i (h : i < kvs.length) (h' : i < u.length), u[i].1 = kvs[i].1 ∧
+        ∃ v, s.pars.lookup kvs[i].1 = some v ∧ u[i].2 = v * kvs[i].2) ∧
+    (scaledValues s.pars kvs = none →
+      step S s (.scalePars kvs) = (s, some .keyError) ∧ ∃ kf ∈ kvs, s.pars.lookup kf.1 = none) := by
+  constructor
+  · intro u hu
+    refine ⟨by simp [step, scalePars, updPars, parsScale, hu], ?_⟩
+    exact scaledValues_some s.pars kvs u hu
+  · intro hn
+    exact ⟨by simp [step, scalePars, parsScale, hn], scaledValues_none s.pars kvs hn⟩
 
 /-! ## Non-vacuity -/
 
